@@ -459,6 +459,54 @@ def realrun_body(t, k):
 tape_harness("realrun", [("t", 1)], {"k": "int"}, realrun_body, globals())
 
 
+def _nested_frames(evs):
+    """Frame ids of recorded calls of NESTED functions (found through the locals of a calling frame) that finished."""
+    out = []
+    for e in evs:
+        if e.event == "call" and "<locals>" in e.code.co_qualname and e.code.co_name not in UNRESOLVABLE_OK and e.code.co_name != "driver" and e.frame_id not in out:
+            out.append(e.frame_id)
+    return out
+
+
+def sessions_body(t):
+    """Two tracing sessions in one process.  In the first, a nested function is entered where no calling frame holds it (the
+    call shape `make()(x)`): it cannot be resolved and nothing is logged.  In the second session - a NEW CallTracer - the same
+    code runs as recorded from the live interpreter, reachable through its caller's locals: that call must be logged.  What one
+    session could not resolve is not the next session's business."""
+    evs = recorded_events()
+    fids = _nested_frames(evs)
+    fid = fids[t.take(len(fids))]
+    mine = [e for e in evs if e.frame_id == fid]
+    code = mine[0].code
+    names = code.co_varnames[: code.co_argcount + code.co_kwonlyargcount]
+    first = CallTracer(ListLogger(), 0, None, None)
+    fr0 = FakeFrame(code, {n: mine[0].locals[n] for n in names if n in mine[0].locals}, {}, None)
+    fr0.f_lasti = mine[0].lasti
+    first(fr0, "call", None)
+    fr0.f_lasti = mine[-1].lasti
+    first(fr0, mine[-1].event, mine[-1].arg)
+    logger = ListLogger()
+    second = CallTracer(logger, 0, None, None)
+    fr = None
+    for e in mine:
+        if fr is None:
+            back = None
+            for locs in reversed(e.back_locals):
+                back = FakeFrame(None, locs, {}, back)
+            fr = FakeFrame(e.code, {}, e.globals, back)
+        fr.f_locals, fr.f_lasti = e.locals, e.lasti
+        second(fr, e.event, e.arg)
+    expected, _unfinished = _expected_log(mine, lambda c: True, 0)
+    got = [tr for tr in logger.traces]
+    if len(got) != len(expected) or any(getattr(tr.func, "__code__", None) is not code for tr in got):
+        return check(False, lambda: f"second tracing session: the call of {code.co_qualname} logged {len(got)} trace(s), expected {len(expected)} "
+                                    f"(an earlier session of the same process had met this code where it could not be resolved)")
+    return check(True)
+
+
+tape_harness("sessions", [("t", 1)], {}, sessions_body, globals())
+
+
 def _truth_function(code):
     """Ground truth: the fixture function object whose __code__ is `code` (independent lookup)."""
     import inspect
